@@ -238,3 +238,17 @@ def foreign_contracts():
             fc.effects = True
             out.append(fc)
     return out
+
+
+# ----------------------------------------------------------------------------- CallbackMapper
+def callback_rec(self, e, args, kwargs):
+    return Rid(e, args, kwargs)
+
+
+def callback_spec(self, expr, args, kwargs):
+    """Every handler hands the node, the mapper itself and the extra arguments, unchanged, to the user function and returns its result."""
+    return self.function(expr, self, *args, **kwargs)
+
+
+CALLBACK = MapperContract("C04.CallbackMapper", "pymbolic.mapper:CallbackMapper", rec=callback_rec, refines=callback_spec,
+                          self_attrs={"function": "v", "fallback_mapper": "v"}, property_id="C04")
